@@ -16,7 +16,7 @@ PT(name, opt, gr, con, txt, tc) == [P(name, opt, gr, con, txt) EXCEPT !.s = tc] 
 ConstSmall == { C(<<"/">>, "/"), C(<<"/","a">>, "/a"), C(<<"/","a","b","/">>, "/ab/"), C(<<"-">>, "-"), C(<<".">>, ".") }
 ConstFull == ConstSmall \cup
   { C(<<"/","a",":","b">>, "/a\\:b"), C(<<"/","A">>, "/A"), C(<<"/","a","/">>, "/a/"), C(<<"/","a","b","c">>, "/abc"),
-    C(<<"/","a","-">>, "/a-") }
+    C(<<"/","a","-">>, "/a-"), C(<<"-","c">>, "-c"), C(<<".","c">>, ".c") }
 ParamSmall ==
   { PT("x", FALSE, FALSE, "none", ":x", <<":","x">>),
     PT("y", TRUE,  FALSE, "none", ":y?", <<":","y","?">>),
@@ -34,7 +34,8 @@ ParamFull == ParamSmall \cup
     PT("g", FALSE, FALSE, "range5_20", ":g<range(5,20)>", <<":","g","<","r","a","n","g","e","(","5",",","2","0",")",">">>),
     PT("l", FALSE, FALSE, "len2", ":l<len(2)>", <<":","l","<","l","e","n","(","2",")",">">>) }
 
-ConstMid == ConstSmall \cup { C(<<"/","A">>, "/A"), C(<<"/","a","/">>, "/a/") }
+\* "-c": a delimiting literal of two bytes whose first byte also occurs inside values ("a-b"), whose second never does
+ConstMid == ConstSmall \cup { C(<<"/","A">>, "/A"), C(<<"/","a","/">>, "/a/"), C(<<"-","c">>, "-c") }
 ParamMid == ParamSmall \cup { p \in ParamFull : p.name \in {"r", "z", "b"} }
 Consts == CASE Pool = "small" -> ConstSmall [] Pool = "mid" -> ConstMid [] OTHER -> ConstFull
 Params == CASE Pool = "small" -> ParamSmall [] Pool = "mid" -> ParamMid [] OTHER -> ParamFull
